@@ -375,7 +375,7 @@ Proof.
   - unfold frame. apply pp_seq; [apply pres_upd_stk|].
     apply (pres_finally (Rp A) (Rp A) (Rp A)); [apply Rpp| |apply pres_upd_stk].
     apply pres_call_views. intros p Hp.
-    destruct (exc_views_pts _ _ _ Hp) as [->|[->|->]]; [right; split; [exact HB|reflexivity]|left; reflexivity|right; split; [exact HA|reflexivity]].
+    destruct (exc_views_pts _ _ _ Hp) as [ -> | [ -> | -> ] ]; [right; split; [exact HB|reflexivity]|left; reflexivity|right; split; [exact HA|reflexivity]].
   - intros k2. apply pres_if; apply pres_raise.
 Qed.
 
